@@ -17,6 +17,7 @@ From Coq Require Import ZArith NArith Bool List.
 From V Require Import Base.GoInt gen.Windows Temporal.WindowModel
   CTFE.ChainModel CTFE.ChainSpec CTFE.ChainLib CTFE.ChainSound CTFE.ChainComplete
   CTFE.ChainEndpoint CTFE.ChainRefuted.
+From V Require Import gen.Verify CTFE.ChainGenTie.
 Import ListNotations.
 Open Scope bool_scope.
 
@@ -171,3 +172,11 @@ Proof.
   - simpl. split; intros k Hk Hex; inversion Hk; subst; reflexivity.
   - split; [unfold H_budget; apply PeanoNat.Nat.leb_le; reflexivity|]. repeat split; reflexivity.
 Qed.
+
+(* the signature-check budget as x509/verify.go applies it today (translated on every run: `*sigChecks >
+   maxChainSignatureChecks` with the constant of the same file) is the model's over_budget - the boundary the
+   known finding 'sigcheck-budget' (100 accepted / 101 refused) rests on *)
+Theorem signature_budget_as_in_source : forall s,
+  over_budget s = sig_budget_exceeded_gen (Z.of_nat (s_checks s)).
+Proof. exact over_budget_meaning. Qed.
+Print Assumptions signature_budget_as_in_source.
